@@ -1049,3 +1049,120 @@ def m_prim_try_from(I, a, t, c):
             return Agg('adt:std::result::Result', 1, [Agg('adt:std::num::TryFromIntError', 0, [])])
         return _ok(_prim_convert(I, v, ty, t))
     raise Unsupported('TryFrom to %r' % (ty,))
+
+
+# ---------------------------------------------------------------------------------------------------- Path / PathBuf (a path is its string)
+@add('<std::path::PathBuf as std::clone::Clone>::clone', 'std::path::PathBuf::as_path', '<std::path::PathBuf as std::ops::Deref>::deref',
+     '<std::path::PathBuf as std::convert::AsRef<std::path::Path>>::as_ref', '<std::path::Path as std::convert::AsRef<std::path::Path>>::as_ref',
+     '<std::string::String as std::convert::AsRef<std::path::Path>>::as_ref', '<str as std::convert::AsRef<std::path::Path>>::as_ref',
+     'std::path::Path::new', 'std::path::Path::to_path_buf', '<std::path::PathBuf as std::convert::From<std::string::String>>::from',
+     '<std::path::PathBuf as std::convert::From<&str>>::from', 'std::path::Path::as_os_str', 'std::path::PathBuf::into_os_string')
+def m_path_identity(I, a, t, c):
+    v = a[0]
+    n = t.callee.name or ''
+    if n.endswith('::clone') or n.endswith('to_path_buf') or '::From<' in n:
+        d = deref_all(I, v) if isinstance(v, RefV) else v
+        return StrV(list(d.chars))
+    return v
+
+
+@add('std::path::Path::to_str')
+def m_path_to_str(I, a, t, c):
+    return some(a[0])
+
+
+@add('std::path::Path::display')
+def m_path_display(I, a, t, c):
+    return a[0]
+
+
+@add('std::path::Path::exists', 'std::path::Path::is_file')
+def m_path_exists(I, a, t, c):
+    p = ''.join(ch if isinstance(ch, str) else chr(I.conc(ch)) for ch in deref_all(I, a[0]).chars)
+    return bv_bool(p in getattr(I, 'files', {}) or p in getattr(I, 'text_files', {}))
+
+
+# ---------------------------------------------------------------------------------------------------- seq_io FASTA reader over the virtual sequence files
+#      (`ska lo -r`: skalo::positioning::get_reader opens the file - part of the environment - and seq_io parses it)
+@add('skalo::positioning::get_reader')
+def m_skalo_get_reader(I, a, t, c):
+    p = ''.join(ch if isinstance(ch, str) else chr(I.conc(ch)) for ch in deref_all(I, a[0]).chars)
+    if p not in getattr(I, 'files', {}):
+        raise Panic('panic', 'Error opening file %s' % p, repr(t.span))
+    return Agg('seqio-src', 0, [p])
+
+
+@add('seq_io::fasta::Reader::new', 'seq_io::fasta::Reader::from_path')
+def m_seqio_reader_new(I, a, t, c):
+    src = a[0]
+    if isinstance(src, Agg) and src.kind == 'seqio-src':
+        path = src.fields[0]
+    else:
+        path = ''.join(ch if isinstance(ch, str) else chr(I.conc(ch)) for ch in deref_all(I, src).chars)
+    fmt, recs = I.files[path]
+    r = Agg('seqio-reader', 0, [list(recs), 0])
+    return _ok(r) if (t.callee.name or '').endswith('from_path') else r
+
+
+@add('seq_io::fasta::Reader::next')
+def m_seqio_next(I, a, t, c):
+    r = I.load(a[0])
+    recs, pos = r.fields
+    if pos >= len(recs):
+        return NONE
+    I.store(a[0], Agg('seqio-reader', 0, [recs, pos + 1]))
+    rid, seq, _q = recs[pos]
+    return some(_ok(Agg('seqio-record', 0, [rid, seq])))
+
+
+@add('<seq_io::fasta::RefRecord as seq_io::fasta::Record>::seq', 'seq_io::fasta::Record::seq', '<seq_io::fasta::OwnedRecord as seq_io::fasta::Record>::seq')
+def m_seqio_seq(I, a, t, c):
+    r = deref_all(I, a[0])
+    s = r.fields[1]
+    return RefV(Cell(Agg('array', 0, [BV(8, ord(ch)) for ch in s]), 'seqio-seq'), (), (0, len(s)))
+
+
+@add('<seq_io::fasta::RefRecord as seq_io::fasta::Record>::id', 'seq_io::fasta::Record::id', '<seq_io::fasta::OwnedRecord as seq_io::fasta::Record>::id')
+def m_seqio_id(I, a, t, c):
+    r = deref_all(I, a[0])
+    return _ok(RefV(Cell(StrV(list(r.fields[0].split()[0] if r.fields[0] else '')), 'seqio-id')))
+
+
+# ---------------------------------------------------------------------------------------------------- arithmetic operator traits through references
+#      (`a - *b` written as `a - b` with b: &u32 resolves to <u32 as Sub<&u32>>::sub etc.; debug-profile semantics: overflow panics)
+def _ref_arith():
+    ops = {'Add': ('add', lambda x, y: x + y), 'Sub': ('sub', lambda x, y: x - y), 'Mul': ('mul', lambda x, y: x * y),
+           'Div': ('div', None), 'Rem': ('rem', None)}
+    for ty, (w, signed) in INTS.items():
+        lo = -(1 << (w - 1)) if signed else 0
+        hi = (1 << (w - 1)) - 1 if signed else (1 << w) - 1
+
+        def val(I, x, signed=signed):
+            x = deref_all(I, x) if isinstance(x, RefV) else x
+            return x.sval() if signed else I.conc(x)
+
+        def mk(v, w=w, signed=signed):
+            return BV(w, v & ((1 << w) - 1), signed=signed) if signed else BV(w, v & ((1 << w) - 1))
+        for tr, (m, f) in ops.items():
+            def binop(I, a, t, c, tr=tr, f=f, val=val, mk=mk, lo=lo, hi=hi):
+                x, y = val(I, a[0]), val(I, a[1])
+                if tr in ('Div', 'Rem'):
+                    if y == 0:
+                        raise Panic('DivisionByZero' if tr == 'Div' else 'RemainderByZero', '', repr(t.span))
+                    q = (abs(x) // abs(y)) * (1 if (x >= 0) == (y >= 0) else -1)
+                    r = q if tr == 'Div' else x - y * q
+                else:
+                    r = f(x, y)
+                if not lo <= r <= hi:
+                    raise Panic('Overflow:%s' % tr, '%d %s %d' % (x, tr, y), repr(t.span))
+                return mk(r)
+
+            def assign(I, a, t, c, binop=binop):
+                I.store(a[0], binop(I, [I.load(a[0]), a[1]], t, c))
+                return UNIT
+            for l, r in (('&' + ty, ty), (ty, '&' + ty), ('&' + ty, '&' + ty)):
+                MODELS.setdefault('<%s as std::ops::%s<%s>>::%s' % (l, tr, r, m), binop)
+            MODELS.setdefault('<%s as std::ops::%sAssign<&%s>>::%s_assign' % (ty, tr, ty, m), assign)
+
+
+_ref_arith()
